@@ -44,7 +44,7 @@ unit(name="SrcLcp", props="property C03", file=SA_FILE, dialect="gensa",
                      params=[("text", "&[u8]"), ("pos", "SA")], ret="LCPArray",
                      locals={"rank": "Vec<usize>", "lcp": "Vec<isize>", "l": "usize"},
                      fuel=["n + 1"],
-                     theorem="RbV.Thm.GenSrcLcp.lcp_eq_model")])
+                     theorem="RbV.Thm.GenSrcLcp.lcp_source_exact")])
 
 # `transform_text` and its helpers.  `T` (u8/u16/u32/u64 by the dispatch of `suffix_array`) is read at `u64` and
 # `num_traits::cast::<usize, T>` as the abstract `castT : Nat → Option Nat` (contract in the theorems: value-preserving
@@ -119,6 +119,51 @@ unit(name="SrcSaisBuckets", props="property C03", file=SA_FILE, dialect="gensa",
                      params=[("text", "&[T]")], ret=None,
                      theorem="RbV.Thm.GenSrcSaisBuckets.init_bucket_end_spec")])
 
+# `Sais::calc_pos` (induced sorting).  `self.init_bucket_start(text)` / `self.init_bucket_end(text)` are abstract monadic
+# parameters with the signatures of the translated functions of Gen/SrcSaisBuckets.lean (the theorems instantiate them),
+# `pos_types.is_l_pos` / `is_s_pos` abstract monadic predicates (instantiated with Gen/SrcPosTypes.lean)
+SA_ABS_BUCKETS = {
+    "init_bucket_start": dict(lean="initBucketStart", reads=["self.bucket_sizes", "self.bucket_start"], args=["&[T]"],
+                              writes=["self.bucket_sizes", "self.bucket_start"]),
+    "init_bucket_end": dict(lean="initBucketEnd", reads=["self.bucket_start", "self.bucket_end"], args=["&[T]"],
+                            writes=["self.bucket_end"])}
+SA_ABS_TYPES = {"pos_types.is_l_pos": dict(lean="isL", args=["usize"], ret="bool", monadic=True),
+                "pos_types.is_s_pos": dict(lean="isS", args=["usize"], ret="bool", monadic=True),
+                "pos_types.is_lms_pos": dict(lean="isLms", args=["usize"], ret="bool", monadic=True)}
+
+unit(name="SrcSaisCalcPos", props="property C03", file=SA_FILE, dialect="gensa", structs=SA_POSTYPES,
+     functions=[dict(name="Sais::calc_pos", lean="calc_pos",
+                     header="fn calc_pos<T: Integer + Unsigned + NumCast + Copy>( &mut self, text: &[T], pos_types: &PosTypes, )",
+                     aliases={"T": "u64"}, abstract_fns=dict(SA_CASTU, **SA_ABS_TYPES), abs_self_calls=SA_ABS_BUCKETS,
+                     self_fields=[(k, SA_FIELDS[k]) for k in ("pos", "lms_pos", "bucket_sizes", "bucket_start", "bucket_end")],
+                     params=[("text", "&[T]"), ("pos_types", "&PosTypes")], ret=None,
+                     theorem="RbV.Thm.GenSrcSaisCalcPos.calc_pos_eq_model")])
+
+# `Sais::lms_substring_eq` (`for k in 0..` on fuel `text.len() + 1`: spec `range_fuel`) and `Sais::calc_lms_pos`
+# (`self.calc_pos(..)` and the width dispatch `self.sort_lms_suffixes::<T, uN>(..)` are abstract: `calcPos`, `sortLms`)
+SA_ALL = ["pos", "lms_pos", "reduced_text_pos", "bucket_sizes", "bucket_start", "bucket_end"]
+SA_ABS_LMS = {"calc_pos": dict(lean="calcPos", reads=["self." + k for k in ("pos", "lms_pos", "bucket_sizes", "bucket_start", "bucket_end")],
+                               args=["&[T]", "&PosTypes"],
+                               writes=["self." + k for k in ("pos", "bucket_sizes", "bucket_start", "bucket_end")])}
+for _w in (8, 16, 32, 64):      # `self.sort_lms_suffixes::<T, uN>(text, pos_types, count)`: one abstract `sortLms`, the width first
+    SA_ABS_LMS["sort_lms_suffixes_u%d" % _w] = dict(lean="sortLms", pre=[str(_w)], reads=["self." + k for k in SA_ALL],
+                                                    args=["&[T]", "&PosTypes", "usize"], writes=["self." + k for k in SA_ALL])
+
+unit(name="SrcSaisLms", props="property C03", file=SA_FILE, dialect="gensa", structs=SA_POSTYPES,
+     functions=[dict(name="Sais::lms_substring_eq", lean="lms_substring_eq",
+                     header="fn lms_substring_eq<T: Integer + Unsigned + NumCast + Copy>( &self, text: &[T], "
+                            "pos_types: &PosTypes, i: usize, j: usize, ) -> bool",
+                     aliases={"T": "u64"}, abstract_fns=SA_ABS_TYPES, range_fuel=["text.length + 1"],
+                     params=[("text", "&[T]"), ("pos_types", "&PosTypes"), ("i", "usize"), ("j", "usize")], ret="bool",
+                     theorem="RbV.Thm.GenSrcSaisLms.lms_substring_eq_eq_model"),
+                dict(name="Sais::calc_lms_pos", lean="calc_lms_pos",
+                     header="fn calc_lms_pos<T: Integer + Unsigned + NumCast + Copy + Debug>( &mut self, text: &[T], "
+                            "pos_types: &PosTypes, )",
+                     aliases={"T": "u64"}, abstract_fns=SA_ABS_TYPES, abs_self_calls=SA_ABS_LMS,
+                     self_fields=[(k, SA_FIELDS[k]) for k in SA_ALL],
+                     params=[("text", "&[T]"), ("pos_types", "&PosTypes")], ret=None, locals={"i": "usize"},
+                     theorem="RbV.Thm.GenSrcSaisLms.calc_lms_pos_eq_model")])
+
 _SA = {}
 
 
@@ -178,6 +223,44 @@ def _sa_classes():
                     self.err("`Vec::with_capacity(%r)`" % (nt,), e)
                 return "([] : %s)" % expected.lean(), expected
             return BaseF.call(self, e, code, expected)
+
+        # ------------------------------------------------------------ abstract `self.method(..)` (spec `abs_self_calls`)
+        def __init__(self, unit, fspec, src, body_text, body_pos):
+            BaseF.__init__(self, unit, fspec, src, body_text, body_pos)
+            self.abs_self = dict(fspec.get("abs_self_calls", {}))
+            fields = dict(fspec.get("self_fields", []))
+            for nm, f in self.abs_self.items():
+                rd = [fields[r[len("self."):]] for r in f["reads"]]
+                wr = [fields[w[len("self."):]] for w in f["writes"]]
+                ret = wr[0] if len(wr) == 1 else "(" + ", ".join(wr) + ")"
+                self.absfns["%selfabs:" + nm] = dict(lean=f["lean"], args=["usize"] * len(f.get("pre", [])) + rd + list(f["args"]),
+                                                     ret=ret, monadic=True)
+
+        def absfn_params(self):
+            out = []
+            for x in BaseF.absfn_params(self):          # several spec entries may share one abstract parameter
+                if x not in out:
+                    out.append(x)
+            return out
+
+        def self_call(self, e, code, expected):
+            f = self.abs_self.get(e.name)
+            if f is None:
+                return BaseF.self_call(self, e, code, expected)
+            if len(f["args"]) != len(e.args):
+                self.err("`self.%s` called with %d arguments, the spec says %d" % (e.name, len(e.args), len(f["args"])), e)
+            parts = list(f.get("pre", [])) + [self.lookup(a, e).lean for a in f["reads"]]
+            for a, at in zip(e.args, f["args"]):
+                want = self.ty_of_text(at)
+                sv, t = self.expr(a, code, want)
+                if t != want:
+                    self.err("argument of `self.%s` has type %r, the spec says %r" % (e.name, t, want), a)
+                parts.append(atom_(sv))
+            outs = [self.lookup(w, e).lean for w in f["writes"]]
+            if f["lean"] not in self.used_abs:
+                self.used_abs.append(f["lean"])
+            code.bind(cb.tuple_pat(outs), ("call", f["lean"] + "".join(" " + atom_(p_) for p_ in parts)))
+            return "()", cb.TUnit()
 
         # ------------------------------------------------------------ `VecMap<usize>` (bucket sizes)
         def is_vecmap(self, e):
@@ -250,8 +333,53 @@ def _sa_classes():
                     return "Rs.VecMap.values %s" % atom_(r), cb.TSeq(cb.TInt("usize"))
             return BaseF.opaque_call(self, e, code)
 
+        # ------------------------------------------------------------ `for k in lo..` (unbounded range) on fuel
+        def unbounded(self, it):
+            x = cf.strip(it)
+            return x.kind == "range" and x.lo is not None and x.hi is None
+
+        def seq(self, stmts, tail_node, code, where):
+            for idx, st in enumerate(stmts):
+                if st.kind in ("for", "while", "return", "ifs", "matchs", "tail"):
+                    break
+            else:
+                return BaseF.seq(self, stmts, tail_node, code, where)
+            st = stmts[idx]
+            if st.kind == "for" and self.unbounded(st.iter) and idx == 0:
+                # the loop can only be left through `return`: the items are `lo, lo+1, …` for as long as the fuel of the
+                # spec (`range_fuel`) lasts; running out of them is `Res.fuel`, the statements after the loop are dead code
+                # (translated for their type only)
+                if "return" not in cf.jumps(st.body) or "break" in cf.jumps(st.body):
+                    self.err("`for … in lo..` is only translated when `return` is its only exit", st)
+                r = self.cf_for(st, code, cf.jumps(st.body), fn_level=True)
+                v = self.tmp()
+                th = cb.Code()
+                outs = [self.lookup(x.rust, st).lean for x in self.ret_fields] + [v]
+                th.final = ("pure", cb.tuple_val(outs))
+                dead = cb.Code()
+                tys = BaseF.seq(self, stmts[1:], tail_node, dead, where)
+                el = cb.Code()
+                el.final = ("call", "Res.fuel")
+                code.final = ("if", "let some %s := %s" % (v, r), th, el)
+                return tys
+            if st.kind == "for" and self.unbounded(st.iter):
+                for s0 in stmts[:idx]:
+                    self.stmt(s0, code, False)
+                return self.seq(stmts[idx:], tail_node, code, where)
+            return BaseF.seq(self, stmts, tail_node, code, where)
+
         def loop_source(self, it, code, s):
             x = cf.strip(it)
+            if self.unbounded(it):
+                fuels = self.spec.get("range_fuel", [])
+                k = getattr(self, "n_unbounded", 0)
+                if k >= len(fuels):
+                    self.err("`for … in lo..` number %d has no fuel expression (`range_fuel`) in the translation spec" % (k + 1), s)
+                self.n_unbounded = k + 1
+                lo, lt = self.expr(x.lo, code, cb.TInt("usize"))
+                if lt != cb.TInt("usize"):
+                    self.err("unbounded range over %r" % (lt,), s)
+                return "List.range' %s (%s)" % (atom_(lo), fuels[k]), lt, None
             if x.kind == "mcall" and x.name == "values" and not x.args and self.is_vecmap(x.recv):
                 l, t = self.opaque_call(x, code)
                 return l, t.elem, None
@@ -292,6 +420,15 @@ def _sa_classes():
             def f(n):
                 if n.kind in ("if", "match", "block", "closure"):
                     return False
+                if n.kind == "mcall" and cf.strip(n.recv).kind == "var" and cf.strip(n.recv).name == "self" \
+                        and n.name in getattr(self, "abs_self", {}):
+                    for w in self.abs_self[n.name]["writes"]:
+                        if w not in decl and w not in out:
+                            out.append(w)
+                if n.kind == "mcall" and n.name == "resize" and len(n.args) == 2:
+                    r = self._lhs_root(n.recv)
+                    if r not in decl and r not in out:
+                        out.append(r)
                 if n.kind == "mcall" and n.name in ("set", "set_bit") and len(n.args) == 2 and cf.strip(n.recv).kind in ("var", "field"):
                     r = self._lhs_root(n.recv)
                     if r not in decl and r not in out:
@@ -309,6 +446,15 @@ def _sa_classes():
                     if it != cb.TInt("usize") or xt != v.ty.elem:
                         self.err("`.set(%r, %r)` on %r" % (it, xt, v.ty), e)
                     code.bind(v.lean, ("call", "Rs.setIdx %s %s %s" % (atom_(v.lean), atom_(i), atom_(x))))
+                    return
+            if e.kind == "mcall" and e.name == "resize" and len(e.args) == 2:
+                v = self.container(e.recv, e)
+                if v is not None and isinstance(v.ty, cb.TSeq):
+                    n, nt = self.expr(e.args[0], code, cb.TInt("usize"))
+                    x, xt = self.expr(e.args[1], code, v.ty.elem)
+                    if nt != cb.TInt("usize") or xt != v.ty.elem:
+                        self.err("`.resize(%r, %r)` on %r" % (nt, xt, v.ty), e)
+                    code.let(v.lean, "Rs.resizeV %s %s %s" % (atom_(v.lean), atom_(n), atom_(x)))
                     return
             if e.kind == "mcall" and e.name == "set_bit" and len(e.args) == 2:
                 v = self.container(e.recv, e)
@@ -338,7 +484,12 @@ def translate_unit(src, unit, fail):
     def tokenize_sa(text, base):
         # a string literal continued with `\` + newline (the message of `assert!`): the tokenizer of rs2lean_cfbase.py has
         # no rule for it (reported in docs/notes/GEN.md); same length, so positions stay right
-        return saved_tok(text.replace("\\\n", "  "), base)
+        text = text.replace("\\\n", "  ")
+        # `self.sort_lms_suffixes::<T, uN>(..)` ↦ `self.sort_lms_suffixes_uN      (..)` (the parser has no turbofish; the width is
+        # part of the name the spec declares), `std::uN::MAX` ↦ `     uN::MAX`; same length, positions stay right
+        text = re.sub(r"::<\s*T\s*,\s*(u\d+)\s*>", lambda m: ("_" + m.group(1)).ljust(len(m.group(0))), text)
+        text = re.sub(r"\bstd::(u\d+::MAX)\b", lambda m: m.group(1).rjust(len(m.group(0))), text)
+        return saved_tok(text, base)
     cf.FnTranslatorX = d["Translator"]
     cb.tokenize = tokenize_sa
     try:
